@@ -50,7 +50,7 @@ static const struct pool POOL_C02[] = {
 	{ { K_SIG_P, K_SIG_P, K_WR, K_RD_EMPTY_P }, { -1, 0, -1, -1 } },
 };
 static const struct pool POOL_C03[] = {
-	{ { K_TIMER, K_TIMER, K_PLAIN_P, K_TIMER }, { 0, 1, 1, 2 } },
+	{ { K_TIMER, K_TIMER, K_SIG_P, K_TIMER }, { 0, 1, 1, 2 } },
 };
 static const struct pool POOL_C45[] = {
 	{ { K_TIMER, K_RD_READY_P, K_TIMER_P, K_NONE }, { -1, -1, -1, -1 } },
@@ -376,7 +376,12 @@ static void build_ops(void)
 		op_push(O_MAXCLR, 1, 0); op_push(O_MAXCLR, 4, 0); op_push(O_MAXCLR, 7, 0);
 		op_push(O_VIRT, 1, 0); if (M.virt > 0) op_push(O_VIRT, -1, 0);
 	} else if (PROP == 3) {
-		for (int i = 0; i < nslots; i++) { op_push(O_ACTIVE, i, EV_READ); op_push(O_LATER, i, EV_WRITE); }
+		for (int i = 0; i < nslots; i++) {
+			op_push(O_ACTIVE, i, EV_READ); op_push(O_LATER, i, EV_WRITE);
+			/* a signal event whose callback runs 2 or 3 times per activation
+			 * (break / exit / continue scripts run inside each invocation) */
+			if (kind_what[S[i].kind] & EV_SIGNAL) { op_push(O_ACTIVE, i, EV_SIGNAL | 0x100); op_push(O_ACTIVE, i, EV_SIGNAL | 0x200); }
+		}
 		op_push(O_ADD, 0, 3); op_push(O_ADD, 3, 4);
 		op_push(O_ADDC, 1, 0); op_push(O_DEL, 1, 0);
 		op_push(O_DEFER, 0, 0);
@@ -411,6 +416,7 @@ static void build_scripts(int ctx, int self)
 		op_push(O_DEL, self, 0); op_push(O_ADDNULL, self, 0); op_push(O_ADD, self, 3);
 		op_push(O_ACTIVE, self, natural_res(S[self].kind));
 		op_push(O_FREE, self, 0);
+		if (kind_what[S[self].kind] & EV_SIGNAL) op_push(O_BREAK, 0, 0);   /* break between the invocations of one activation */
 		if (S[other].exists) { op_push(O_DEL, other, 0); op_push(O_ACTIVE, other, natural_res(S[other].kind)); op_push(O_ADD, other, 0); op_push(O_FREE, other, 0); }
 		if (p_scripts > 1 && S[other2].exists) { op_push(O_DEL, other2, 0); op_push(O_ACTIVE, other2, EV_TIMEOUT); }
 		if (p_scripts > 1) { op_push(O_RMT, self, 0); op_push(O_PRIO, self, 0); op_push(O_RAISE, 0, 0); op_push(O_ADV, 4, 0); }
@@ -438,7 +444,7 @@ static void apply_op(const struct op *o)
 	case O_ADDC: if (S[i].exists) { mc_observe("c%d:%lld ", i, (long long)CDUR[o->b]); do_addc(i, o->b); } break;
 	case O_DEL: if (S[i].exists) { mc_observe("d%d ", i); do_del(i); } break;
 	case O_RMT: if (S[i].exists) { mc_observe("r%d ", i); do_rmt(i); } break;
-	case O_ACTIVE: if (S[i].exists) { char f[8]; mc_observe("A%d%s%s ", i, flagstr(o->b & 0xff, f), o->b & 0x100 ? "x2" : ""); do_active(i, o->b & 0xff, o->b & 0x100 ? 2 : 1); } break;
+	case O_ACTIVE: if (S[i].exists) { char f[8]; int nc = 1 + ((o->b >> 8) & 3); mc_observe("A%d%sx%d ", i, flagstr(o->b & 0xff, f), nc); do_active(i, o->b & 0xff, nc); } break;
 	case O_LATER: if (S[i].exists) { mc_observe("L%d ", i); do_later(i, o->b); } break;
 	case O_PRIO: if (S[i].exists) { mc_observe("p%d:%d ", i, o->b); do_prio(i, o->b); } break;
 	case O_NEW: mc_observe("n%d ", i); do_new(i); break;
